@@ -556,3 +556,130 @@ Lemma mirror_endz_strict_is_end : forall p, endz_strict e = true ->
 Proof. intros p H. cbn [anchor_ok]. rewrite H. destruct (1 <? n - p) eqn:E; lia. Qed.
 
 End Leaves2.
+
+(* ---------------------------------------------------------------------------------------------- *)
+(* Result-list combinators                                                                        *)
+(* ---------------------------------------------------------------------------------------------- *)
+Definition res_all {A} (ok : A -> Prop) (r : res (list A)) : Prop :=
+  match r with Ok l => Forall ok l | _ => True end.
+
+Section Comb.
+Context {A B : Type} (m : A -> B) (ok : A -> Prop).
+
+Lemma mirror_bindl : forall (l : list A) (f : A -> res (list A)) (f' : B -> res (list B)),
+  Forall ok l -> (forall a, ok a -> f' (m a) = map_res (map m) (f a)) ->
+  bindl (map m l) f' = map_res (map m) (bindl l f).
+Proof.
+  intros l f f' Hl Hf. induction Hl as [|a l Ha Hl IH]; [reflexivity|].
+  cbn [map bindl]. rewrite (Hf a Ha). destruct (f a) as [x| | |]; cbn [map_res bind]; try reflexivity.
+  rewrite IH. destruct (bindl l f) as [y| | |]; cbn [map_res bind]; try reflexivity.
+  now rewrite map_app.
+Qed.
+
+Lemma mirror_bindr : forall (r : res (list A)) (r' : res (list B)) f f',
+  r' = map_res (map m) r -> res_all ok r ->
+  (forall a, ok a -> f' (m a) = map_res (map m) (f a)) ->
+  bindr r' f' = map_res (map m) (bindr r f).
+Proof.
+  intros r r' f f' -> Hr Hf. unfold bindr. destruct r as [l| | |]; cbn [map_res bind]; try reflexivity.
+  apply mirror_bindl; assumption.
+Qed.
+
+Lemma mirror_appr : forall (a b : res (list A)) (a' b' : res (list B)),
+  a' = map_res (map m) a -> b' = map_res (map m) b -> appr a' b' = map_res (map m) (appr a b).
+Proof.
+  intros a b a' b' -> ->. unfold appr.
+  destruct a as [x| | |]; cbn [map_res bind]; try reflexivity.
+  destruct b as [y| | |]; cbn [map_res bind]; try reflexivity.
+  now rewrite map_app.
+Qed.
+
+Lemma mirror_first_only : forall (r : res (list A)) (r' : res (list B)),
+  r' = map_res (map m) r -> first_only r' = map_res (map m) (first_only r).
+Proof.
+  intros r r' ->. unfold first_only. destruct r as [[|a l]| | |]; reflexivity.
+Qed.
+
+Lemma mirror_bindl_ok : forall (l : list A) (f : A -> res (list A)),
+  Forall ok l -> (forall a, ok a -> res_all ok (f a)) -> res_all ok (bindl l f).
+Proof.
+  intros l f Hl Hf. induction Hl as [|a l Ha Hl IH]; [constructor|].
+  cbn [bindl]. specialize (Hf a Ha). destruct (f a) as [x| | |]; cbn [bind res_all]; try exact I.
+  destruct (bindl l f) as [y| | |]; cbn [bind res_all] in *; try exact I.
+  apply Forall_app; split; assumption.
+Qed.
+
+Lemma mirror_bindr_ok : forall (r : res (list A)) f,
+  res_all ok r -> (forall a, ok a -> res_all ok (f a)) -> res_all ok (bindr r f).
+Proof.
+  intros r f Hr Hf. unfold bindr. destruct r as [l| | |]; cbn [bind res_all]; try exact I.
+  apply mirror_bindl_ok; assumption.
+Qed.
+
+Lemma mirror_appr_ok : forall (a b : res (list A)),
+  res_all ok a -> res_all ok b -> res_all ok (appr a b).
+Proof.
+  intros a b Ha Hb. unfold appr. destruct a as [x| | |]; cbn [bind res_all]; try exact I.
+  destruct b as [y| | |]; cbn [bind res_all] in *; try exact I.
+  apply Forall_app; split; assumption.
+Qed.
+
+Lemma mirror_first_only_ok : forall (r : res (list A)), res_all ok r -> res_all ok (first_only r).
+Proof.
+  intros r Hr. unfold first_only. destruct r as [[|a l]| | |]; cbn [bind res_all] in *; try exact I.
+  - constructor.
+  - inversion Hr; subst. constructor; [assumption|constructor].
+Qed.
+
+End Comb.
+
+(* ---------------------------------------------------------------------------------------------- *)
+(* Generic loops                                                                                  *)
+(* ---------------------------------------------------------------------------------------------- *)
+Section Iter.
+Variable e : env.
+Local Notation n := (tlen e).
+Local Notation mir := (mirror_st e).
+Local Notation ok := (st_ok e).
+
+Lemma mirror_iter_ok : forall fuel body lazy limit s mark count,
+  (forall s, ok s -> res_all ok (body s)) -> ok s ->
+  res_all ok (iter fuel body lazy limit s mark count).
+Proof.
+  induction fuel as [|f IH]; intros body lazy limit s mark count Hb Hs; [exact I|].
+  cbn [iter].
+  assert (Hagain : res_all ok (bindr (body s) (fun s' => iter f body lazy limit s' (pos s) (count + 1)))).
+  { apply mirror_bindr_ok; [now apply Hb|]. intros a Ha. now apply IH. }
+  assert (Hone : res_all ok (Ok [s])) by (repeat constructor; apply Hs).
+  destruct lazy.
+  - destruct (count <? 0); [assumption|].
+    apply mirror_appr_ok; [assumption|].
+    destruct ((count <? limit) && negb (pos s =? mark)); [assumption|constructor].
+  - destruct ((limit <=? count) || ((pos s =? mark) && (0 <=? count))); [assumption|].
+    apply mirror_appr_ok; [assumption|]. destruct (0 <=? count); [assumption|constructor].
+Qed.
+
+Lemma mirror_iter : forall fuel body body' lazy limit s mark mark' count,
+  (forall s, ok s -> body' (mir s) = map_res (map mir) (body s)) ->
+  (forall s, ok s -> res_all ok (body s)) ->
+  ok s -> (n - pos s =? mark') = (pos s =? mark) ->
+  iter fuel body' lazy limit (mir s) mark' count
+  = map_res (map mir) (iter fuel body lazy limit s mark count).
+Proof.
+  induction fuel as [|f IH]; intros body body' lazy limit s mark mark' count Hb Hbo Hs Hm; [reflexivity|].
+  cbn [iter]. cbn [pos mirror_st]. rewrite Hm.
+  assert (Hagain :
+    bindr (body' (mir s)) (fun s' => iter f body' lazy limit s' (n - pos s) (count + 1))
+    = map_res (map mir) (bindr (body s) (fun s' => iter f body lazy limit s' (pos s) (count + 1)))).
+  { apply mirror_bindr with (ok := ok); [now apply Hb|now apply Hbo|].
+    intros a Ha. apply IH; try assumption. lia. }
+  rewrite Hagain.
+  destruct lazy.
+  - destruct (count <? 0); [reflexivity|].
+    apply mirror_appr; [reflexivity|].
+    destruct ((count <? limit) && negb (pos s =? mark)); reflexivity.
+  - destruct ((limit <=? count) || ((pos s =? mark) && (0 <=? count))); [reflexivity|].
+    apply mirror_appr; [reflexivity|]. destruct (0 <=? count); reflexivity.
+Qed.
+
+End Iter.
